@@ -17,6 +17,11 @@ CONSTANTS Vals,      \* well-typed element values (positive integers)
           Bad        \* one ill-typed value
 
 Unset == 0
+(* ill-typed values.  Bad compares equal to no element.  Twin is of another type as well, but *compares equal* to  *)
+(* the well-typed value 1 (as REAL(0.0) does to INTEGER(0)): a membership or equality test on the held values must  *)
+(* not stand in for the check of the base type.                                                                    *)
+Twin == Bad + 1
+Bads == {Bad, Twin}
 (* base types of the elements and the concrete values that stand for the abstract values 1, 2, 3, 4: the semantics *)
 (* of the containers do not depend on the base type, but the first value of every base is the one a truthiness     *)
 (* test takes for "nothing" (0, 0.0, the empty string), which must be an element like any other                    *)
@@ -54,7 +59,7 @@ Construct(r) == /\ LegalCfg(r) /\ k' = r /\ c' = Empty(r)
 Cap(span) == IF span THEN k.hi - k.lo + 1 ELSE k.hi
 
 MustSetC(i, v, span) ==
-  IF v = Bad THEN "reject"                                                        \* base type
+  IF v \in Bads THEN "reject"                                                        \* base type
   ELSE IF k.kind = "ARRAY" /\ (i < k.lo \/ i > k.hi) THEN "reject"                \* index (ARRAY)
   ELSE IF k.kind = "LIST" /\ (i < Min2(1, k.lo) \/ (~k.unb /\ i > k.hi)) THEN "reject"   \* index (LIST)
   ELSE IF k.uniq /\ (\E j \in DOMAIN c : j # i /\ c[j] = v) THEN "reject"         \* UNIQUE: held at another index
@@ -65,7 +70,7 @@ MustSetC(i, v, span) ==
 MustSet(i, v) == MustSetC(i, v, FALSE)
 
 SetItem(i, v, a) ==
-  /\ Indexed /\ i \in Idx /\ v \in Vals \cup {Bad}
+  /\ Indexed /\ i \in Idx /\ v \in Vals \cup Bads
   /\ c' = IF a THEN [c EXCEPT ![i] = v] ELSE c
   /\ UNCHANGED k
 
@@ -78,16 +83,18 @@ MustGet(i) ==
 
 GetItem(i, a) == /\ Indexed /\ i \in Idx /\ UNCHANGED vars
 
+(* a value that compares equal to a held one (set membership is by equality, so Twin is "in" a SET that holds 1) *)
+EqMember(v) == v \in ValueSet \/ (v = Twin /\ 1 \in ValueSet)
 MustAddC(v, span) ==
-  IF v = Bad THEN "reject"
-  ELSE IF k.kind = "SET" /\ v \in ValueSet THEN "free"      \* re-adding: a no-op or an error, never a duplicate
+  IF k.kind = "SET" /\ EqMember(v) THEN "free"              \* re-adding: a no-op or an error, never a new element
+  ELSE IF v \in Bads THEN "reject"
   ELSE IF ~k.unb /\ Count + 1 > Cap(span) THEN "reject"
   ELSE "accept"
 MustAdd(v) == MustAddC(v, FALSE)
 
 Add(v, a) ==
-  /\ ~Indexed /\ v \in Vals \cup {Bad}
-  /\ c' = IF a /\ ~(k.kind = "SET" /\ v \in ValueSet) THEN Append(c, v) ELSE c
+  /\ ~Indexed /\ v \in Vals \cup Bads
+  /\ c' = IF a /\ ~(k.kind = "SET" /\ EqMember(v)) THEN Append(c, v) ELSE c
   /\ UNCHANGED k
 
 (* a verdict is consistent with an observed choice *)
@@ -95,9 +102,9 @@ Consistent(m, a) == (m = "accept" => a) /\ (m = "reject" => ~a)
 
 (* the design: any implementation choice the oracle permits *)
 Init == k = [kind |-> "none", lo |-> 0, hi |-> 0, unb |-> FALSE, uniq |-> FALSE, opt |-> FALSE] /\ c = <<>>
-NextOp == \/ Indexed /\ \E i \in Idx, v \in Vals \cup {Bad}, a \in BOOLEAN : Consistent(MustSet(i, v), a) /\ SetItem(i, v, a)
+NextOp == \/ Indexed /\ \E i \in Idx, v \in Vals \cup Bads, a \in BOOLEAN : Consistent(MustSet(i, v), a) /\ SetItem(i, v, a)
           \/ Indexed /\ \E i \in Idx, a \in BOOLEAN : Consistent(MustGet(i), a) /\ GetItem(i, a)
-          \/ ~Indexed /\ \E v \in Vals \cup {Bad}, a \in BOOLEAN : Consistent(MustAdd(v), a) /\ Add(v, a)
+          \/ ~Indexed /\ \E v \in Vals \cup Bads, a \in BOOLEAN : Consistent(MustAdd(v), a) /\ Add(v, a)
 
 (* ------------------- queries after any operations ------------------- *)
 Size      == IF k.kind = "ARRAY" THEN k.hi - k.lo + 1 ELSE Count
